@@ -1237,12 +1237,12 @@ func c18GenDate(r *kit.Rand, i int) c18DateCase {
 func TestVerifC18(t *testing.T) {
 	kit.Run(t, "C18",
 		kit.Class[c18Case]{
-			Name: "builder", Quick: 600, Thorough: 12000,
-			Gen: c18GenBuilder, Check: c18CheckBuilder, NonTrivial: c18NonTrivialBuilder, MinNonTrivial: 300,
+			Name: "builder", Quick: 1500, Thorough: 10000,
+			Gen: c18GenBuilder, Check: c18CheckBuilder, NonTrivial: c18NonTrivialBuilder, MinNonTrivial: 800,
 			Rule: "result sets over 1-3 units, 0-2 table keys, 2-5 benchmarks, 2-7 experiments (distinct instants, any accepted spelling), 2-6 series stamps with one numerator hash each (stamp spelled differently from result to result), 1-2 denominator hashes, both roles plus ignored roles, 1-4 files; added to fresh builders in 6 (quick) / 20 (thorough) insertion orders, directly or through the text reader; both duplicate policies. Non-trivial = at least 2 points, at least one with repeated experiments",
 		},
 		kit.Class[c18Case]{
-			Name: "builder-missing-baseline", Quick: 300, Thorough: 4000,
+			Name: "builder-missing-baseline", Quick: 300, Thorough: 2000,
 			Gen:  func(r *kit.Rand, i int) c18Case { return c18GenBuilderP(r, i, 0.3) },
 			Check: c18CheckBuilder, NonTrivial: c18NonTrivialBuilder, MinNonTrivial: 100,
 			Rule: "as builder, replace policy only, but 30% of the (benchmark, experiment) trials have no baseline measurements",
